@@ -507,12 +507,26 @@ template <class T, int N> using EM = Eigen::Matrix<T, N, N>;
 static void run_table(const char *sub, const std::vector<Ent> &tab, long per_type) {
     if (!vf::sub_enabled(sub)) return;
     long N = per_type * (long)tab.size();
-    for (long idx = 0; idx < N; ++idx) { if (!vf::selected(sub, idx)) continue; const Ent &e = tab[idx % tab.size()]; e.fn(idx, idx / (long)tab.size(), e.name); }
+    // --nested=1: every case is executed by thread 0 of an enclosing parallel region of two threads.  Nesting is off by
+    // default, so the primitives' own parallel regions then run with a team of ONE thread while omp_get_max_threads()
+    // still reports the configured count -- the definitions must hold for whatever team the runtime hands out.
+    const bool nested = vf::opt_int("nested", 0) != 0;
+    for (long idx = 0; idx < N; ++idx) { if (!vf::selected(sub, idx)) continue; const Ent &e = tab[idx % tab.size()];
+        if (!nested) { e.fn(idx, idx / (long)tab.size(), e.name); continue; }
+#pragma omp parallel num_threads(2)
+        { if (omp_get_thread_num() == 0) e.fn(idx, idx / (long)tab.size(), e.name); }
+    }
 }
 
 int main(int argc, char **argv) {
     vf::init(argc, argv);
     vf::obs_add("threads_seen", std::to_string(omp_get_max_threads()));
+    { int team = 0;
+#pragma omp parallel
+      {
+#pragma omp single
+        team = omp_get_num_threads(); }
+      vf::obs_add("team_sizes_seen", std::to_string(team) + "of" + std::to_string(omp_get_max_threads()) + (vf::opt_int("nested", 0) ? "(nested:1)" : "")); }
     typedef std::complex<double> Z; typedef std::complex<float> Zf;
 #define VT_LIST(F) \
     {"float", F<float>}, {"double", F<double>}, {"long double", F<long double>}, {"complex<double>", F<Z>}, {"complex<float>", F<Zf>}, \
